@@ -1277,4 +1277,16 @@ class GenC05(GridMixin, FileGen):
         return self.mk("map.rate", h=h.name, r=self.r.choice([0.5, 2, 1.5, 0.75, 1.25]), out=self.new_h())
 
 
-SCENARIOS = {"C01": GenC01, "C02": GenC02, "C04": GenC04, "C05": GenC05, "C03": GenC03, "C06": GenC06, "C16": GenC16, "C14": GenC14, "C12": GenC12, "C08": GenC08, "C13": GenC13, "C15": GenC15}
+class GenC07(FileGen):
+    game = "o2j"
+    write_games = ()
+    read_games = ("o2j",)
+    table = dict(install_read=20, reread=5, mapset_get_map=1, map_deepcopy=1)
+
+    def gen_doc(self, game):
+        from .gen_files import gen_ojn_doc
+
+        return gen_ojn_doc(self.d, 4 if self.tier == "quick" else 6), {}
+
+
+SCENARIOS = {"C01": GenC01, "C02": GenC02, "C07": GenC07, "C04": GenC04, "C05": GenC05, "C03": GenC03, "C06": GenC06, "C16": GenC16, "C14": GenC14, "C12": GenC12, "C08": GenC08, "C13": GenC13, "C15": GenC15}
